@@ -339,7 +339,7 @@ class Runner:
         rep = dict(property=self.prop, unit=u.name, enforce=u.enforce, obligation=fail['obligation'],
                    description=fail['description'], location=fail.get('location'), inputs=inputs,
                    functions=u.functions, cbmc_trace_tail=cbmc_out, native='not-run')
-        native = native_replay(self.prop, u, inputs, self.scratch) if inputs else dict(outcome='no-inputs', output='')
+        native = native_replay(self.prop, u, inputs, self.scratch) if (inputs or getattr(self.mod, 'ORACLE_SCANS', False) or getattr(load_prop(getattr(u, 'origin', None) or self.prop), 'ORACLE_SCANS', False)) else dict(outcome='no-inputs', output='')
         rep['native'] = native
         with open(path, 'w') as f:
             json.dump(rep, f, indent=1)
